@@ -177,7 +177,13 @@ def check_mapper_constructors(fx, rep, rule):
 def check_mapping_wiring(fx, rep, rule):
     """ProguardMapping::new stores its argument; ProguardMapping::iter iterates exactly the stored bytes (every
     property that quantifies over 'a mapping file' enters through these two)."""
-    check_constructor(fx, rep, rule, "mapping::ProguardMapping", "new", {"source": ("param", "source")})
+    MF = A.mapping_field(fx)
+    newp = A.method(fx, "mapping::ProguardMapping", "new")
+    pn = "source"
+    if len(newp) == 1:
+        pp_ = [prm["pat"] for prm in fx.bodies[newp[0]]["params"] if prm.get("pat")]
+        pn = pp_[0].get("name", "arg0") if pp_ and pp_[0].get("k") == "Bind" else "arg0"
+    check_constructor(fx, rep, rule, "mapping::ProguardMapping", "new", {MF: ("param", pn)})
     c = A.method(fx, "mapping::ProguardMapping", "iter")
     p = A.one(rep, rule, "ProguardMapping::iter", c)
     if not p:
@@ -193,6 +199,6 @@ def check_mapping_wiring(fx, rep, rule):
         found = S.tstr(v)
         if good:
             flds = dict(v[3])
-            good = len(flds) == 1 and list(flds.values())[0] == mk_field(slf, "source") and v[1].endswith("ProguardRecordIter")
+            good = len(flds) == 1 and list(flds.values())[0] == mk_field(slf, MF) and v[1].endswith("ProguardRecordIter")
     rep.check(rule, "%s/mapping-iter" % rule, good, loc=F.short_file(b["sp"]), found=found,
               expected="ProguardRecordIter over exactly self.source (no condition, no effect)")
